@@ -47,21 +47,7 @@ def run(ck: Checker):
         ok11 = a_.kwarg is None or not named
         ck.ob('C01-11', sm, sm.node, ok11, 'the callable is positional-only; no named parameter can capture a keyword meant for the worker' if ok11 else f'`{cname}.submit` has the named parameter(s) {named} next to `**{a_.kwarg.arg}`: a worker keyword of that name is captured by submit (TypeError: multiple values), and the call is never made')
     ck.rule('C01-12', 'a second pass over the same parmap object gives the same outputs: what one pass of ParmapperAsync hands to its helper thread — stop flag, event loop — is created by that __iter__ (ORIGIN), not kept on the object, where the flag set at the end of the first pass ends the helper of every later pass at once', minimum=1)
-    from mpsa.match import spawn_sites as _spawn_sites
-
-    pa = ck.repo.cls(STREAMER, 'ParmapperAsync').method('__iter__')
-    sps12 = [sp for sp in _spawn_sites(pa) if sp.kind == 'thread']
-    ck.need(sps12, f'{pa.key}: helper thread not found')
-    probs12 = []
-    argsv = kwarg(sps12[0].call, 'args')
-    for e_ in (argsv.elts if isinstance(argsv, (ast.Tuple, ast.List)) else []):
-        if not isinstance(e_, ast.Name):
-            probs12.append(f'`{norm_text(e_)}` handed to the helper thread is not a local of this pass')
-            continue
-        defs12 = [st for st in walk_shallow_func(pa.node) if isinstance(st, ast.Assign) and any(is_name(t, e_.id) for t in st.targets)]
-        if len(defs12) != 1 or not isinstance(defs12[0].value, ast.Call) or any(isinstance(x, ast.Name) and x.id == 'self' for x in ast.walk(defs12[0].value)):
-            probs12.append(f'`{e_.id}` handed to the helper thread is `{norm_text(defs12[0].value)[:40] if defs12 else "not bound here"}`, not an object made by this pass: state of an earlier pass (a stop flag that is already set) is carried into the next one')
-    ck.ob('C01-12', pa, sps12[0].call, not probs12, '; '.join(probs12) if probs12 else 'stop flag and event loop of the helper thread are created by each pass')
+    check_per_pass_state(ck, 'C01-12')
     ck.rule('C01-9', 'every element gets its call whatever the worker function does: the executor a parmapper submits to is constructed by that iteration (ORIGIN) — on a pool shared between streams a worker function that itself runs a parmap starves the outer stream of threads and no output is ever produced', minimum=2)
     from .c08 import check_private_pool
 
@@ -343,3 +329,22 @@ def check_feeder_namespace(ck: Checker, rid: str):
             continue
         shared = [x.arg for x in a.args + a.kwonlyargs]
         ck.ob(rid, m.feeder, (m.feeder.node.lineno, f'{m.feeder.qualname} signature'), not shared, f'all own parameters of the feeder are positional-only; `**{a.kwarg.arg}` is the user\'s namespace alone' if not shared else f'the feeder\'s own parameters {shared} can be passed by keyword, in the same namespace as the user\'s `**{a.kwarg.arg}`: a worker keyword of that name (e.g. parmap(f, {shared[-1]}=1)) replaces the internal object or makes the feeder call fail — the feeder dies, the consumer hangs')
+
+
+def check_per_pass_state(ck: Checker, rid: str):
+    """what one pass of ParmapperAsync hands to its helper thread is created by that __iter__"""
+    from mpsa.match import spawn_sites as _spawn_sites
+
+    pa = ck.repo.cls(STREAMER, 'ParmapperAsync').method('__iter__')
+    sps12 = [sp for sp in _spawn_sites(pa) if sp.kind == 'thread']
+    ck.need(sps12, f'{pa.key}: helper thread not found')
+    probs12 = []
+    argsv = kwarg(sps12[0].call, 'args')
+    for e_ in (argsv.elts if isinstance(argsv, (ast.Tuple, ast.List)) else []):
+        if not isinstance(e_, ast.Name):
+            probs12.append(f'`{norm_text(e_)}` handed to the helper thread is not a local of this pass')
+            continue
+        defs12 = [st for st in walk_shallow_func(pa.node) if isinstance(st, ast.Assign) and any(is_name(t, e_.id) for t in st.targets)]
+        if len(defs12) != 1 or not isinstance(defs12[0].value, ast.Call) or any(isinstance(x, ast.Name) and x.id == 'self' for x in ast.walk(defs12[0].value)):
+            probs12.append(f'`{e_.id}` handed to the helper thread is `{norm_text(defs12[0].value)[:40] if defs12 else "not bound here"}`, not an object made by this pass: state of an earlier pass (a stop flag that is already set) is carried into the next one')
+    ck.ob(rid, pa, sps12[0].call, not probs12, '; '.join(probs12) if probs12 else 'stop flag and event loop of the helper thread are created by each pass')
